@@ -161,6 +161,16 @@ def check(run):
                 ("fu%d" % n, "runlock")]
         expect.update({"fs%d" % n: "err", "fm%d" % n: "err"})
         meta["fs%d" % n] = meta["fm%d" % n] = what + " (between open and the handle's first transaction)"
+    # 6. ... and after a transaction that could not even start (the read lock was refused: a writer held the file): the next
+    # transactions validate the header as always
+    for n, (what, off, hx) in enumerate(bads):
+        seq += [("lo%d" % n, "db %s" % good), ("lr%d" % n, "rlock"), ("ls%d" % n, "scan %d 0" % root), ("lu%d" % n, "runlock"),
+                ("lf%d" % n, "lockfail on"), ("lx%d" % n, "rlock"), ("ly%d" % n, "scan %d 0" % root), ("lg%d" % n, "lockfail off"),
+                ("la%d" % n, "rlock"), ("lb%d" % n, "scan %d 0" % root), ("lc%d" % n, "runlock"),
+                ("lp%d" % n, "poke %d %s" % (off, hx)), ("ld%d" % n, "rlock"), ("le%d" % n, "scan %d 0" % root), ("lm%d" % n, "master"), ("lh%d" % n, "runlock")]
+        expect.update({"ls%d" % n: "ok", "lb%d" % n: "ok", "le%d" % n: "err", "lm%d" % n: "err"})
+        for k_ in ("ls", "lb", "le", "lm"):
+            meta["%s%d" % (k_, n)] = what + " (after a read lock that was refused)"
     res3, impl3, _ = ops.run_cmds("c15-retxn", seq, timeout=300, sides=("impl",))
     for cid, exp in expect.items():
         run.count(); dist["retransaction"] += 1
